@@ -12,6 +12,11 @@ pub enum NOp {
     Create { name: String, dir: bool },
     /// remove the k-th name created so far (if it still exists)
     Remove { k: u16 },
+    /// create a file in the second directory (which has aliases of its own)
+    CreateIn2 { name: String },
+    /// move the k-th name created in the first directory into the second one, keeping its long name: the alias it
+    /// arrives with must be unique THERE
+    MoveTo2 { k: u16 },
 }
 
 #[derive(Clone, Debug, Serialize, Deserialize)]
@@ -95,6 +100,10 @@ pub fn eval(pop: &Population) -> CaseOut {
         }
     };
     let mut sess = Some(sess);
+    if let Err(e) = sess.as_ref().unwrap().root().create_dir("pop2") {
+        out.violation = Some(format!("harness: {:?}", e));
+        return out;
+    }
     if let Err(e) = sess.as_ref().unwrap().root().create_dir("pop") {
         out.violation = Some(format!("harness: {:?}", e));
         return out;
@@ -120,6 +129,25 @@ pub fn eval(pop: &Population) -> CaseOut {
                             d.create_dir(name).map(|_| ()).map_err(|e| format!("{:?}", ek(&e)))
                         } else {
                             d.create_file(name).map(|_| ()).map_err(|e| format!("{:?}", ek(&e)))
+                        }
+                    }
+                    NOp::CreateIn2 { name } => match s.root().open_dir("pop2") {
+                        Ok(d2) => d2.create_file(name).map(|_| ()).map_err(|e| format!("{:?}", ek(&e))),
+                        Err(e) => Err(format!("{:?}", ek(&e))),
+                    },
+                    NOp::MoveTo2 { k } => {
+                        if created_c.is_empty() {
+                            Ok(())
+                        } else {
+                            let idx = (*k as usize * created_c.len()) >> 16;
+                            if live_c[idx] {
+                                match s.root().open_dir("pop2") {
+                                    Ok(d2) => d.rename(&created_c[idx].0, &d2, &created_c[idx].0).map_err(|e| format!("{:?}", ek(&e))),
+                                    Err(e) => Err(format!("{:?}", ek(&e))),
+                                }
+                            } else {
+                                Err("not live".into())
+                            }
                         }
                     }
                     NOp::Remove { k } => {
@@ -180,6 +208,15 @@ pub fn eval(pop: &Population) -> CaseOut {
                 }
             }
             (NOp::Remove { .. }, Err(_)) => {}
+            (NOp::CreateIn2 { .. }, _) => {}
+            (NOp::MoveTo2 { k }, Ok(())) => {
+                if !created.is_empty() {
+                    let idx = (*k as usize * created.len()) >> 16;
+                    live[idx] = false;
+                    out.classes.insert("moves_between_directories".into(), out.classes.get("moves_between_directories").copied().unwrap_or(0) + 1);
+                }
+            }
+            (NOp::MoveTo2 { .. }, Err(_)) => {}
         }
         // oracle on the raw image
         let dec = dev.with_store(|st| refdec::decode(st, refdec::DecodeOpts { read_data: false, ..Default::default() }));
@@ -247,6 +284,17 @@ fn name_strategy(hash_family: Vec<String>) -> impl Strategy<Value = String> {
         1 => "a{1,40}",
         1 => "[a-b]{1,3}\\.[a-b]{1,3}\\.[a-b]{1,3}",
         1 => "~[1-9]?[a-z]{0,3}",
+        // one base name with and without leading / trailing dots and spaces: all map to the same 8.3 base
+        3 => (prop::sample::select(vec!["foo", "ab", "x", "longername", "a b"]), 0u8..8).prop_map(|(b, form)| match form {
+            0 => b.to_string(),
+            1 => format!("{}.", b),
+            2 => format!(".{}", b),
+            3 => format!("{}..", b),
+            4 => format!("..{}", b),
+            5 => format!("{} .", b),
+            6 => format!(".{}.", b),
+            _ => format!("{}.{}", b, b),
+        }),
     ]
 }
 
@@ -271,7 +319,7 @@ fn scripted(n: usize, fat: u8, salt: u64) -> Population {
 /// families aimed at the corners of the two alias forms
 fn scripted_corner(which: usize, fat: u8, salt: u64) -> Population {
     let mut ops = Vec::new();
-    match which % 3 {
+    match which % 4 {
         0 => {
             // hash 0xFFFF .. 0xFFFD: 16 names each, so that the retry path has to step the hash past 0xFFFF
             for (t, p) in [(0xFFFFu16, "zz"), (0xFFFE, "zy"), (0x0000, "zx")] {
@@ -294,6 +342,24 @@ fn scripted_corner(which: usize, fat: u8, salt: u64) -> Population {
                 }
             }
         }
+        3 => {
+            // both directories hold PREFIX~1.. for different long names; then same-name moves from one into the other
+            for i in 0..5 {
+                ops.push(NOp::Create { name: format!("quarterly report number {}.txt", i), dir: false });
+                ops.push(NOp::CreateIn2 { name: format!("quarterly figures {}.txt", i) });
+            }
+            for i in 0..5u32 {
+                ops.push(NOp::MoveTo2 { k: (i * 13_107 + 100) as u16 });
+            }
+            // and the dotted twins of one base, in every order of arrival
+            for n in [".foo", "foo", "foo.", "foo..", "..foo", ".foo."] {
+                ops.push(NOp::Create { name: n.to_string(), dir: false });
+            }
+            let order = [[2usize, 0, 1], [1, 2, 0], [0, 2, 1]][(salt % 3) as usize];
+            for o in order {
+                ops.push(NOp::Create { name: ["ab.", ".ab", "ab"][o].to_string(), dir: false });
+            }
+        }
         _ => {
             // both at once with removals of low tails in between
             for n in same_hash_family_target("qq", " long ", ".dat", 14, salt, Some(0xFFFF)) {
@@ -311,7 +377,7 @@ fn scripted_corner(which: usize, fat: u8, salt: u64) -> Population {
 }
 
 pub fn run(tier: Tier, seed: u64) -> i32 {
-    let rule = "directory populations built through the public API to collide: names sharing the 6-character prefix and extension; families with the same 2-character prefix, extension and 16-bit name hash (found by search) so the hash form overflows and the retry path runs; names that look like generated aliases (PREFIX~1.TXT, AB1F2E~3.TXT); corner families (16 names each with hash 0xFFFF / 0xFFFE / 0x0000 so that the retry path steps the hash across the 16-bit wrap; names whose characters 3..6 spell their own hash arriving as fifth member of their 6-character family); dots, spaces, non-ASCII, characters illegal in 8.3; deletions and re-creations in between; after EVERY step refdec checks on the raw image: short names byte-unique per directory, legal 8.3 bytes (upper case, no leading/embedded space), every long-name slot's checksum = checksum of its short entry, no orphan slots; every creation within a 6,000,000 device-call budget; non-trivial = population in which >= 4 live aliases share one ~N prefix form (second stage reached); distinct by hash of the population";
+    let rule = "directory populations built through the public API to collide: names sharing the 6-character prefix and extension; families with the same 2-character prefix, extension and 16-bit name hash (found by search) so the hash form overflows and the retry path runs; names that look like generated aliases (PREFIX~1.TXT, AB1F2E~3.TXT); corner families (16 names each with hash 0xFFFF / 0xFFFE / 0x0000 so that the retry path steps the hash across the 16-bit wrap; names whose characters 3..6 spell their own hash arriving as fifth member of their 6-character family); dots, spaces, non-ASCII, characters illegal in 8.3; deletions and re-creations in between; a second directory with aliases of its own and same-name moves into it; one base name with leading / trailing dots and spaces in every order of arrival; after EVERY step refdec checks on the raw image: short names byte-unique per directory, legal 8.3 bytes (upper case, no leading/embedded space), every long-name slot's checksum = checksum of its short entry, no orphan slots; every creation within a 6,000,000 device-call budget; non-trivial = population in which >= 4 live aliases share one ~N prefix form (second stage reached); distinct by hash of the population";
     let mut rep = Report::new("C16", tier, seed, "exploration", rule);
     let mut reg = Block::new("regress");
     for f in run::regress_files("C16") {
@@ -347,12 +413,12 @@ pub fn run(tier: Tier, seed: u64) -> i32 {
     sb.exhaustive = false;
     rep.add(sb);
     if !rep.failed() {
-        let n_corner: u64 = tier.pick(9, 60);
+        let n_corner: u64 = tier.pick(12, 80);
         let cb = run::run_indexed("scripted_corner_families", n_corner, |i, blk| {
-            let fat = [12u8, 16, 32][(i / 3) as usize % 3];
-            let pop = scripted_corner(i as usize, fat, seed.wrapping_mul(31).wrapping_add(i / 3));
+            let fat = [12u8, 16, 32][(i / 4) as usize % 3];
+            let pop = scripted_corner(i as usize, fat, seed.wrapping_mul(31).wrapping_add(i / 4));
             let out = eval(&pop);
-            blk.record(&out, || serde_json::json!({"fat": fat, "family": i % 3, "first_ops": &pop.ops[..8.min(pop.ops.len())]}));
+            blk.record(&out, || serde_json::json!({"fat": fat, "family": i % 4, "first_ops": &pop.ops[..8.min(pop.ops.len())]}));
             out.violation.map(|m| {
                 let fails = |ops: &[NOp]| eval(&Population { fat, ops: ops.to_vec() }).violation.is_some();
                 let min = run::ddmin(&pop.ops, &fails);
@@ -376,7 +442,7 @@ pub fn run(tier: Tier, seed: u64) -> i32 {
             move || {
                 let fam = fam.clone();
                 run::boxed(
-                    (prop::sample::select(vec![12u8, 16, 16, 32]), prop::collection::vec(prop_oneof![9 => (name_strategy(fam.clone()), prop::bool::weighted(0.15)).prop_map(|(name, dir)| NOp::Create { name, dir }), 2 => any::<u16>().prop_map(|k| NOp::Remove { k })], 5..120))
+                    (prop::sample::select(vec![12u8, 16, 16, 32]), prop::collection::vec(prop_oneof![9 => (name_strategy(fam.clone()), prop::bool::weighted(0.15)).prop_map(|(name, dir)| NOp::Create { name, dir }), 2 => any::<u16>().prop_map(|k| NOp::Remove { k }), 2 => name_strategy(fam.clone()).prop_map(|name| NOp::CreateIn2 { name }), 1 => any::<u16>().prop_map(|k| NOp::MoveTo2 { k })], 5..120))
                         .prop_map(|(fat, ops)| Population { fat, ops }),
                 )
             },
